@@ -151,3 +151,9 @@ Proof. cbn. split; [repeat split; reflexivity|]. eexists; split; [reflexivity|re
 Example C06_nonvacuous_to :
   exists q, tp_to (mkTP KRate (3#1) UYear 1 UYear 1) UMonth (Some 2) = Ok q /\ tp_v q == (1 # 2).
 Proof. eexists; split; [reflexivity|reflexivity]. Qed.
+
+(* "arithmetic rescales consistently" is refuted for addition: x + c adds c to the converted values, x += c adds c to v in the parameter's own unit
+   (ss.dur(3, 'week') on a daily parent: x + 1 = 22 steps, after x += 1 the parameter is 28 steps) -- listed finding inplace-add-uses-own-unit *)
+Theorem C06_inplace_add_differs_refuted : exists p c y1 y2, tp_add p c = Ok y1 /\ tp_values (tp_iadd p c) = Ok y2 /\ ~ y1 == y2.
+Proof. exact inplace_add_differs_refuted. Qed.
+Print Assumptions C06_inplace_add_differs_refuted.
